@@ -165,11 +165,3 @@ Definition reblock (H : hdr) (hb : list Z) (T : tmpl) (L nlive : Z) : outcome ou
   bind (rb_header H hb) (fun h =>
   bind (rb_footer H T nlive) (fun f =>
   Return {| o_header := h; o_data := rb_data H L; o_footer := f |})).
-
-(* ---------- closed forms used by the correspondence harness (proved equal to the above in Proofs/Reblock.v) ---------- *)
-(* provenance of byte j of the unit stored at unit position (iu, xu, zu) of the OUTPUT grid *)
-Definition rb_unit_src (H : hdr) (iu xu zu : Z) : option Z :=
-  if (4 * iu <? rd_n_ilines H) && (4 * xu <? rd_n_xlines H)
-  then Some (rd_data_start_bytes H +
-             rd_unit_bytes H * ((iu * (rd_shape_pad1 H / 4) + xu) * (rd_shape_pad2 H / 4) + zu))
-  else None.
